@@ -40,15 +40,37 @@ def canon_term(t):
     return sym.tstr(cat(*its))
 
 
-def check_overrides(out, facts, S):
-    cfg = facts.cfg
+def _encoded_size_forward(facts, S, ms, mt):
+    """an overridden encoded_size is accepted only as a pure forward: its value is `encoded_size` of exactly the value
+    whose encoding the impl's byte-producing method emits (encode_to == enc<T>(x)  and  encoded_size == T::encoded_size(x))"""
+    f = ms['encoded_size']
+    ev = sym.Evaluator(facts)
+    ctx = sym.Ctx(ev, f)
+    if f['params']:
+        ctx.env[f['params'][0]['v']] = ('self',)
+    v, t = ev.ev(f['thir'], ctx)
+    sv = strip(v)
+    if not (isinstance(sv, tuple) and sv[0] == 'encoded_size'):
+        return 'its value is %s, not the encoded_size of the forwarded value' % sym.vstr(v)[:120]
+    for m, (tm, fm) in mt.items():
+        its = [e for e in items(tm) if e[0] not in ('CFG', 'ALLOC', 'OWN', 'SINKW')]
+        if len(its) == 1 and its[0][0] == 'enc':
+            if its[0][1] == sv[1] and sym.vstr(its[0][2]) == sym.vstr(sv[2]):
+                return None
+            return 'it measures %s of type %s but %s emits %s of type %s' % (sym.vstr(sv[2])[:60], sv[1], m, sym.vstr(its[0][2])[:60], its[0][1])
+    return 'the impl does not forward its bytes to a single inner value, so a forwarded size cannot be justified'
+
+
+def check_overrides(out, facts, S, impls=None, label=None):
+    cfg = label or facts.cfg
     n = 0
     n_multi = 0
-    for i in facts.impls_of('Encode'):
+    for i in (impls if impls is not None else facts.impls_of('Encode')):
         n += 1
         key = 'impl Encode for %s [%s]' % (i['self'], cfg)
         mt, ms = method_terms(facts, S, i)
-        out.ob('R07.1', key + '/encoded_size', 'encoded_size' not in ms, 'encoded_size is overridden (its default is the streaming encoder into the counting sink)', i['loc'])
+        why_es = _encoded_size_forward(facts, S, ms, mt) if 'encoded_size' in ms else None
+        out.ob('R07.1', key + '/encoded_size', not why_es, 'encoded_size is overridden (its default is the streaming encoder into the counting sink) and is not a pure forward: %s' % why_es, i['loc'])
         if not mt:
             st = i.get('self_adt') or {}
             uninhabited = st.get('kind') == 'enum' and not st.get('variants')
@@ -246,5 +268,19 @@ def run(cx, out):
         # the fake-specialisation table decides which types take the bulk path (shared with C01 R01.3)
         from . import c01
         c01.check_type_info(out, facts)
+    # derived impls: the entry points the derive macros generate (single-field forwarding fast path, enum encoders)
+    from . import c05 as _c05
+    from .. import facts as _fm
+    if not getattr(cx, 'nested', 0):
+        try:
+            fx, _defs = _c05.corpus_facts(cx)
+            libD = cx.facts('D')
+            lib_impls = {(i['path'], i['self']) for i in libD.impls}
+            own = [i for i in fx.impls_of('Encode') if (i['path'], i['self']) not in lib_impls]
+            Sx = shape.Shapes(fx)
+            nx, _ = check_overrides(out, fx, Sx, impls=own, label='derive corpus')
+            out.floor('R07.1', 'derived Encode impls of the corpus', nx, 80)
+        except _fm.BuildError as e:
+            out.fail('R07.1', 'derive corpus', 'corpus does not compile: %s' % str(e)[:300], '-')
     from . import positive
     positive.check(cx, out, 'C07')
